@@ -33,6 +33,7 @@ ASSUMPTIONS = ["mutating a list the caller itself passed to the constructor is n
 TABLE: dict = {}
 ORDER: list = []
 MAXN = 4000
+RAND_POOL = []   # (function name, n, seed, private copy of the first answer)
 
 
 def content(obj):
@@ -256,6 +257,12 @@ def run(ctx):
                 law(u1.shape == (n, n) and np.max(np.abs(u1.conj().T @ u1 - np.eye(n))) < 1e-10, "random_unitary not unitary", case, "random_unitary")
                 law(np.array_equal(u1, u2), "same seed, different unitary", case, "random_seed")
                 law(not np.array_equal(u1, lw.random_unitary(n, (seed + 1) % 2 ** 32)) or n == 0, "different seeds, same unitary", case, "random_seed")
+                # the caller owns what it was given: overwrite the returned arrays, ask again (now and much later)
+                saved = u1.copy()
+                u1[...] = 0; u2 *= 0.5
+                law(np.array_equal(lw.random_unitary(n, seed), saved),
+                    "after the caller overwrote a returned matrix, the same seed gives a different / non-unitary matrix", case, "random_result_shared")
+                RAND_POOL.append(("random_unitary", n, seed, saved))
             elif op == "perm":
                 ctx.bucket("random_permutation")
                 n = int(rng.integers(1, 13)); seed = pick_seed(rng)
@@ -264,6 +271,11 @@ def run(ctx):
                 ok = p1.shape == (n, n) and np.all((p1 == 0) | (p1 == 1)) and np.all(p1.sum(0) == 1) and np.all(p1.sum(1) == 1)
                 law(bool(ok), "random_permutation is not a permutation matrix", case, "random_permutation")
                 law(np.array_equal(p1, p2), "same seed, different permutation", case, "random_seed")
+                saved = p1.copy()
+                p1[...] = 7; p2 *= 0
+                law(np.array_equal(lw.random_permutation(n, seed), saved),
+                    "after the caller overwrote a returned matrix, the same seed gives a different matrix", case, "random_result_shared")
+                RAND_POOL.append(("random_permutation", n, seed, saved))
             else:
                 a = occ()
                 kind_i = str(rng.choice(["list", "tuple", "ndarray", "generator"]))
@@ -275,6 +287,15 @@ def run(ctx):
                 law(s == State(list(a)) and hash(s) == hash(State(list(a))) and [int(x) for x in s.s] == a,
                     f"State built from a {kind_i} differs from the one built from the list", case, "state_from_iterable")
                 law(s.n_photons == sum(a) and s.n_modes == len(a) == len(s) and list(s) == a, "counts", case, "counts")
+            if RAND_POOL and op in ("unitary", "perm") and rng.random() < 0.5:
+                fn, n0, seed0, saved0 = RAND_POOL[int(rng.integers(len(RAND_POOL)))]
+                ctx.bucket("earlier_seed_asked_again")
+                again = getattr(lw, fn)(n0, seed0)
+                law(np.array_equal(again, saved0), f"{fn}({n0}, {seed0}) asked again later in the process gives a different matrix",
+                    dict(case, earlier=(fn, n0, seed0)), "random_seed_later")
+                again[...] = 0
+                if len(RAND_POOL) > 200:
+                    del RAND_POOL[:100]
         except Exception as e:  # noqa: BLE001
             ctx.violation(f"{op} raised {type(e).__name__}: {e}", case=case, mechanism="raised:" + op, monitor="driver")
         verify_all(ctx, case)
